@@ -108,6 +108,27 @@ T = [
  ("R3-C19-bcdd-vartolevel-inverse", "C19", "/tmp/seed3/C19-out", "patch2.diff", "seeded_C19_2.c", "r3-C19b", ["r3-C19b", "r3-C19b2"], "oxidd_bcdd_manager_var_to_level returns level_to_var: wrong under an order that is not its own inverse (>= 3 variables, rotation)"),
  ("R3-C20-pointer-nodeset-pageoffset", "C20", "/tmp/seed3/C20-out", "patch.diff", "seeded_C20.rs", "r3-C20a", ["r3-C20a", "r3-C20a2"], "pointer backend only: NodeSet drops an address bit, two nodes exactly 1 MiB apart in one page count as one: node_count() of a function with more than 32768 nodes spread over the store is too small"),
  ("R3-C20-pointer-reorder-flag-stuck", "C20", "/tmp/seed3/C20-out", "patch2.diff", "seeded_C20_2.rs", "r3-C20b", ["r3-C20b"], "pointer backend with apply cache only: reorder_gc_prepared is not reset, every gc after the first reordering skips clearing the cache"),
+
+ ("R3-C02-bcdd-impstrict-nomt", "C02", "/tmp/seed3/C02-out", "patch.diff", "seeded_C02.rs", "r3-C02a", ["r3-C02a"], "builds without multi-threading only: BCDD imp_strict computes rhs < lhs (the sequential front end has its own copy)"),
+ ("R3-C02-pointer-frommap-hook-order", "C02", "/tmp/seed3/C02-out", "patch2.diff", "demo2_seeded_C02b.rs", "r3-C02b", ["r3-C02b", "r3-C02b2"], "pointer backend, ZBDD, variables created through add_named_vars_from_map on an empty manager: the post-reorder hooks run before the level tables are resized, the tautology chain holds only the Base terminal (t, var, not, nand ... wrong, no panic)"),
+ ("R3-C04-zbdd-restrict-mt-handover-level", "C04", "/tmp/seed3/C04-out", "patch.diff", "seeded_C04.rs", "r3-C04a", ["r3-C04a", "r3-C04a2"], "ZBDD restrict on a manager with >= 2 workers: the hand-over from the parallel to the sequential recursor restarts at level 0 (needs the recursion to reach the split depth)"),
+ ("R3-C04-bdd-applyexists-swapped-nomt", "C04", "/tmp/seed3/C04-out", "patch2.diff", "seeded_C04_2.rs", "r3-C04b", ["r3-C04b"], "builds without multi-threading only: BDD apply_exists with swapped operands (visible for imp / imp_strict)"),
+ ("R3-C10-mtbdd-var-level", "C10", "/tmp/seed3/C10-out", "patch.diff", "seeded_C10.rs", "r3-C10a", ["r3-C10a"], "MTBDD var() requested after a reordering (variable number used as level)"),
+ ("R3-C10-terminal-iterator-unretained", "C10", "/tmp/seed3/C10-out", "patch2.diff", "demo2_seeded_C10_2.rs", "r3-C10b", ["r3-C10b"], "as R3-C05-terminal-iterator-unretained (found independently)"),
+ ("R3-C11-pointer-static-terminal-decode", "C11", "/tmp/seed3/C11-out", "patch.diff", "seeded_C11.rs", "r3-C11a", ["r3-C11a"], "pointer backend only: static terminal decoding masks with the largest value (right only for power-of-two terminal counts): the TDD terminal Unknown decodes as False"),
+ ("R3-C11-eval-leveltovar", "C11", "/tmp/seed3/C11-out", "patch2.diff", "seeded_C11_2.rs", "r3-C11b", ["r3-C11b"], "TDD eval records its arguments at level_to_var(var): wrong under an order that is not its own inverse (>= 3 variables)"),
+ ("R3-C12-natural-cmp-mask", "C12", "/tmp/seed3/C12-out", "patch.diff", "seeded_C12.rs", "r3-C12a", ["r3-C12a"], "Natural::partial_cmp of two numbers of equal bit width, >= 2 digits each, identical top 64 bits and trailing-zero counts differing mod 64"),
+ ("R3-C12-countcache-vars-not-updated", "C12", "/tmp/seed3/C12-out", "patch2.diff", "seeded_C12_2.rs", "r3-C12b", ["r3-C12b"], "one count cache: sat_count(A vars), gc, sat_count(B vars), sat_count(A vars) again without gc"),
+ ("R3-C13-pointer-varlevelmap-extend", "C13", "/tmp/seed3/C13-out", "patch.diff", "seeded_C13.rs", "r3-C13a", ["r3-C13a"], "pointer backend, variables created in two or more batches: level_to_var of later batches maps back to 0..k; only the vector-returning pick functions use it"),
+ ("R3-C13-bcdd-f64-count-1021", "C13", "/tmp/seed3/C13-out", "patch2.diff", "seeded_C13_2.rs", "r3-C13b", ["r3-C13b", "r3-C13b2"], "BCDD model count in f64 with exactly 1021 variables overflows to inf (pick_cube_uniform then always takes the else branch)"),
+ ("R3-C15-escape-0d", "C15", "/tmp/seed3/C15-out", "patch.diff", "seeded_C15.rs", "r3-C15a", ["r3-C15a", "r3-C15a2"], "binary export writes the escape of byte 0x0d as that of 0x0a: needs a child id / id distance in 768..895, i.e. a BCDD with more than ~1536 nodes in binary mode"),
+ ("R3-C15-import-table-sized-by-nvars", "C15", "/tmp/seed3/C15-out", "patch2.diff", "seeded_C15_2.rs", "r3-C15b", ["r3-C15b"], "binary import into a manager with more variables than the file's .nvars and a support variable at a level >= .nvars"),
+ ("R3-C16-pointer-addnamed-zero-vars", "C16", "/tmp/seed3/C16-out", "patch.diff", "seeded_C16.rs", "r3-C16a", ["r3-C16a", "r3-C16a2"], "pointer backend, ZBDD: an add_named_vars call that adds no variable (duplicate first, empty list) skips the post-reorder hooks, the tautology chain stays torn down"),
+ ("R3-C16-varnamemap-clone-index", "C16", "/tmp/seed3/C16-out", "patch2.diff", "seeded_C16_2.rs", "r3-C16b", ["r3-C16b"], "a cloned VarNameMap with an unnamed variable before a named one, taken wholesale by add_named_vars_from_map on an empty manager"),
+ ("R3-C17-rehash-mod-mask", "C17", "/tmp/seed3/C17-out", "patch.diff", "demo/crates/linear-hashtbl/tests/seeded_C17.rs", "r3-C17a", ["r3-C17a"], "rehash (growth, shrink, tombstone cleanup) places elements with `% new_mask`: an element colliding at one of the last two slots is stored behind a free slot"),
+ ("R3-C17-reserve-counts-tombstones-free", "C17", "/tmp/seed3/C17-out", "patch2.diff", "demo2/crates/linear-hashtbl/tests/seeded_C17_2.rs", "r3-C17b", ["r3-C17b"], "reserve treats tombstones as free: a low element count with tombstones over >= 16 home slots leaves no free slot, lookups of absent keys never terminate"),
+ ("R3-C18-aiger-ascii-fairness-spans", "C18", "/tmp/seed3/C18-out", "patch.diff", "seeded_C18.rs", "r3-C18a", ["r3-C18a", "r3-C18a2"], "ASCII AIGER 1.9 file with more fairness constraints than justice literals: the surplus fairness literals stay untranslated"),
+ ("R3-C18-nnf-literal-min-i64", "C18", "/tmp/seed3/C18-out", "patch2.diff", "seeded_C18_2.rs", "r3-C18b", ["r3-C18b", "r3-C18b2"], "NNF token `L -9223372036854775808`: abs overflow panic instead of a diagnostic (builds with overflow checks)"),
 ]
 summary = []
 for sid, prop, out, patch, demo, conf, evals, needs in T:
